@@ -943,7 +943,8 @@ def run(ctx):
             ALPHA4, ALPHA3, DIAGS, [round(r, 4) for r in DENSITIES], depth))
     # ---- self-test: the first case twice gives the same observation
     c0 = [3, True, 1, 1.0, "clustered", False, True]
-    assert fam_step(c0)["sig"] == fam_step(c0)["sig"], "not deterministic"
+    ctx.selftest_same(fam_step(c0)["sig"] == fam_step(c0)["sig"],
+                      "fam_step%r" % (c0,))
     # ---- step
     mats = _matrix_cases(ctx.tier, ctx.seed)
     cases = []
